@@ -14,7 +14,7 @@ def h_graph_addEdge : Nat := 0x5543e7c7ac1c31af
 def h_graph_findStep : Nat := 0xa4ee71033e7e5fa5
 
 /-- hash of the normalised skeleton of setupRetry (internal/dag/scheduler/graph.go) -/
-def h_graph_setupRetry : Nat := 0x891e75cf0699f505
+def h_graph_setupRetry : Nat := 0x6659ffee3f324453
 
 /-- hash of the normalised skeleton of NewExecutionGraph (internal/dag/scheduler/graph.go) -/
 def h_graph_NewExecutionGraph : Nat := 0x870d8099848258ce
@@ -27,6 +27,6 @@ def h_graph_node_clearState : Nat := 0x0cd364175773c3b7
 
 def hasCycleFacts : List String := ["range g.to", "range g.nodes", "if inDegrees[node.id] != 0 => continue", "for len(q) > 0", "range tos", "inDegrees[to]--", "if inDegrees[to] == 0 => q = append(q, to)", "range inDegrees", "if degree > 0 => return true"]
 
-def setupRetryFacts : List String := ["if len(node.data.Step.Depends) == 0 => frontier = append(frontier, node.id)", "if retry[u] || dict[u] == NodeStatusError || dict[u] == NodeStatusCancel || dict[u] == NodeStatusRunning => g.dict[u].clearState(); retry[u] = true", "if retry[u] => retry[v] = true"]
+def setupRetryFacts : List String := ["if len(node.data.Step.Depends) == 0 => frontier = append(frontier, node.id)", "if retry[u] || dict[u] == NodeStatusError || dict[u] == NodeStatusCancel || dict[u] == NodeStatusRunning || dict[u] == NodeStatusNone => g.dict[u].clearState(); retry[u] = true", "if retry[u] => retry[v] = true"]
 
 end BdModel.Canon.Graph
